@@ -29,7 +29,7 @@ def main():
     notes = []
     scratch = lpv.scratch_dir()
     if not a.replay:
-        rd = os.path.join(lpv.VERIF, "evidence", "replay")
+        rd = os.path.join(lpv.EVID, "replay")
         if os.path.isdir(rd):
             for f in os.listdir(rd):
                 if f.startswith(prop + "_"):
